@@ -63,7 +63,12 @@ def match_known(known, prop, cl):
             continue
         if k["obligation"] != cl["obligation"]:
             continue
-        if all(m in text for m in k.get("match", [])):
+        if k.get("variant"):
+            # the code was re-verified against the contract with exactly this defect written in
+            if (cl.get("witness") or {}).get("known_variant") == k["variant"]:
+                return k
+            continue
+        if k.get("match") and all(m in text for m in k["match"]):
             return k
     return None
 
